@@ -303,6 +303,9 @@ type World struct {
 	Log    []Op
 	// Rig, when set (OpHooks), is the keeper with instrumented listeners every operation goes through.
 	Rig *HookRig
+	// SameTimeBlocks allows several blocks with the same time (what an application does when
+	// transactions arrive in several blocks before the clock moves on).
+	SameTimeBlocks bool
 }
 
 func (w *World) keeper() *keeper.Keeper {
@@ -498,7 +501,7 @@ func (w *World) applyMsg(o Op) (res Result) {
 }
 
 func (w *World) applyBlock(o Op) (res Result) {
-	if !o.Time.After(w.Now) {
+	if !o.Time.After(w.Now) && !(w.SameTimeBlocks && o.Time.Equal(w.Now)) {
 		panic("harness: block time must increase")
 	}
 	w.Now = o.Time
